@@ -152,3 +152,38 @@ func MeasureAllocs(f func(), warm, n int) float64 {
 	runtime.ReadMemStats(&b)
 	return float64(b.Mallocs-a.Mallocs) / float64(n)
 }
+
+// ParseOnly returns a closure that calls the concrete ParseVector of a version on s (accepted or not).
+func ParseOnly(ver int, s string) func() {
+	switch ver {
+	case spec.V20:
+		return func() { sink20, sinkErr = gocvss20.ParseVector(s) }
+	case spec.V30:
+		return func() { sink30, sinkErr = gocvss30.ParseVector(s) }
+	case spec.V31:
+		return func() { sink31, sinkErr = gocvss31.ParseVector(s) }
+	}
+	return func() { sink40, sinkErr = gocvss40.ParseVector(s) }
+}
+
+// MeasureAllocsAfter returns the mean number of heap allocations of f when
+// every call of f is immediately preceded by pre(): allocations of pre are
+// excluded (MemStats is read between pre and f). GOMAXPROCS(1), GC off.
+func MeasureAllocsAfter(pre, f func(), warm, n int) float64 {
+	old := debug.SetGCPercent(-1)
+	defer debug.SetGCPercent(old)
+	for i := 0; i < warm; i++ {
+		pre()
+		f()
+	}
+	var a, b runtime.MemStats
+	var total uint64
+	for i := 0; i < n; i++ {
+		pre()
+		runtime.ReadMemStats(&a)
+		f()
+		runtime.ReadMemStats(&b)
+		total += b.Mallocs - a.Mallocs
+	}
+	return float64(total) / float64(n)
+}
